@@ -24,7 +24,7 @@ RULE = ('cases = (model family x ensemble structure x priors x correlation mode 
         'total_least_squares, plus shift-and-refit and TLS-vs-OLS twins; non-trivial = every case (all are non-linear in at least one parameter)')
 ASSUMPTIONS = ['data are generated close to the model (relative noise 1-3 %) in well-conditioned regions; a minimiser that reports non-convergence raises and the case is discarded',
                'stationarity is measured by the Newton decrement in units of chi^2 (1e-11 Levenberg-Marquardt, 1e-7 ODR)',
-               'shift-and-refit agrees to first order: |dp - eps*dp/dy| <= 1e-2 |eps dp/dy| + curvature * eps^2']
+               'shift-and-refit (central difference, step 1e-2 sigma) agrees to first order: |dp - eps*dp/dy| <= 1e-2 |eps dp/dy| + 1e-3 max|eps dp/dy| + 1e-7 max|p|']
 
 
 def _quiet(f):
@@ -42,7 +42,7 @@ def make_case(rng, i, ctx):
     else:
         x = np.round(rng.uniform(lo, hi, size=(2, npts)), 2)
         truth = np.array([f(ptrue, x[:, j]) for j in range(npts)])
-    force = (i % 6 == 0)                      # every sixth case: correlated chi^2 together with priors
+    force = (i % 7 == 0)                      # every seventh case (cycles through the families): correlated chi^2 together with priors
     kind = 'shared' if force else str(rng.choice(['independent', 'shared', 'mixed']))
     corr_mode = 'estimated' if (kind == 'shared' and npts <= 8 and (force or rng.random() < 0.5)) else 'none'
     ys = fitgen.data_points(rng, truth, kind, npts, nsamp=60 if corr_mode != 'none' else 30)
@@ -89,7 +89,8 @@ def make_case(rng, i, ctx):
     # shift one datum and re-fit (independent data: the sensitivity dp/dy_k is the ratio of fluctuations on the ensemble of point k)
     if kind == 'independent' and priors is None and not numgrad and rng.random() < 0.7:
         k = int(rng.integers(0, npts))
-        eps = 1e-4 * float(ys[k].dvalue)
+        # central difference with a step well above the convergence noise of the minimiser (about 1e-8 of the parameter error)
+        eps = 1e-2 * float(ys[k].dvalue)
         chain = ys[k].names[0]
         sens = []
         for p in res.fit_parameters:
@@ -97,15 +98,20 @@ def make_case(rng, i, ctx):
             dy = np.asarray(ys[k].deltas[chain])
             j = int(np.argmax(np.abs(dy)))
             sens.append(float(d[j] / dy[j]))
-        ys2 = list(ys)
-        ys2[k] = ys[k] + eps
-        ys2[k].gamma_method()
+        p0 = [float(p.value) for p in res.fit_parameters]
         try:
-            res2 = _quiet(lambda: pe.fits.least_squares(x, ys2, f, silent=True, initial_guess=[float(p.value) for p in res.fit_parameters]))
-            shifted = {'k': 'ok', 'p': [{'value': rat(float(p.value))} for p in res2.fit_parameters]}
+            moved = []
+            for sgn in (1, -1):
+                ys2 = list(ys)
+                ys2[k] = ys[k] + sgn * eps
+                ys2[k].gamma_method()
+                res2 = _quiet(lambda: pe.fits.least_squares(x, ys2, f, silent=True, initial_guess=p0))
+                moved.append([float(p.value) for p in res2.fit_parameters])
+            shifted = {'k': 'ok', 'p': [{'value': rat(p0[a] + 0.5 * (moved[0][a] - moved[1][a]))} for a in range(len(p0))]}
         except Exception as e:  # noqa: BLE001
             shifted = {'k': 'exc', 't': type(e).__name__}
-        curv = 1e3 * max(abs(s) for s in sens) / float(ys[k].dvalue) + 1e-6
+        # absolute allowance: third order in the step, and the minimiser's own precision
+        curv = (1e-3 * eps * max(abs(s) for s in sens) + 1e-7 * max(abs(v) for v in p0)) / eps ** 2
         cases.append({'id': cid + '-shift%d' % k, 'ev': 'shift', 'eps': rat(eps), 'sens': [rat(s) for s in sens], 'curv': rat(curv),
                       'base': {'k': 'ok', 'p': [{'value': rat(float(p.value))} for p in res.fit_parameters]}, 'shifted': shifted})
     return cases
@@ -115,6 +121,8 @@ def make_tls(rng, i, ctx):
     name = ['exp', 'rational', 'cosh', 'power', 'mixed2d'][i % 5]
     n, D, f, eb, ptrue, (lo, hi) = fitgen.NONLINEAR[name]
     npts = int(rng.integers(n + 2, n + 4))
+    if D == 2 and ctx.quick:
+        npts = n + 1          # 4 + 2*5 unknowns: keeps the symbolic Hessian of the quick tier small
     xs = np.round(rng.uniform(lo, hi, size=(D, npts)), 2)
     xs.sort(axis=1)
     truth = np.array([f(ptrue, xs[0, j] if D == 1 else xs[:, j]) for j in range(npts)])
@@ -143,7 +151,7 @@ def make_tls(rng, i, ctx):
         cases.append({'id': cid, 'ev': 'tls', 'mode': 'fit', 'n': n, 'fe': gen.strip(eb(n)),
                       'x': [[project_obs(o) for o in row] for row in xo], 'y': [project_obs(o) for o in ys],
                       'dx': [[rat(float(o.dvalue)) for o in row] for row in xo], 'dy': [rat(float(o.dvalue)) for o in ys],
-                      'res': {'k': 'ok', 'p': [project_obs(p) for p in res.fit_parameters], 'xplus': [[ratx(float(v)) for v in row] for row in xplus], 'dof': int(res.dof)}})
+                      'res': {'k': 'ok', 'p': [project_obs(p) for p in res.fit_parameters], 'xplus': [[ratx(float(v)) for v in row] for row in xplus], 'dof': int(res.dof), 'chisquare': ratx(abs(float(res.odr_chisquare)))}})
     else:
         # negligible x errors: the total-least-squares fit coincides with the ordinary fit (parameters as observables on the y ensembles)
         try:
